@@ -5,6 +5,10 @@ mod c04;
 mod c05;
 mod c06;
 mod c09;
+mod c14;
+mod astgen;
+mod c15;
+mod c16;
 mod c_diff;
 mod comp;
 mod dynp;
@@ -34,6 +38,9 @@ fn main() {
         "c05" => c05::main(&a),
         "c06" => c06::main(&a),
         "c09" => c09::main(&a),
+        "c14" => c14::main(&a),
+        "c15" => c15::main(&a),
+        "c16" => c16::main(&a),
         "dump" => dump(&a),
         w => {
             eprintln!("unknown worker {w}");
@@ -51,6 +58,7 @@ fn dump(a: &rep::Args) {
         table: a.extra.get("table").map(|t| t.parse().unwrap()),
         ps: a.extra.get("ps").map(|t| t == "1"),
         pse: a.extra.get("pse").map(|t| t == "1"),
+        builder: a.extra.get("builder").map(|t| t.parse().unwrap()).unwrap_or(1),
         ..Default::default()
     };
     let c = wd.compile(&text, &spec);
